@@ -45,7 +45,7 @@ check('C16',
       design_ref='5.13')
 
 check('C05',
-      'Bounded model checking of the real signature diff/eq/clone code and of diff -> hint -> simulate closure: FieldSignature (a == b) iff both diffs empty with attribute values symbolic; Model/App/Project signatures over unique_together, index_together, Meta.indexes, Meta.constraints (incl. reordered lists) and db_table_comment; hinted evolution from Diff.evolution() simulated on clone(old) leaves no residual difference, for fields changed in place / added / deleted, models deleted and Meta changes. Seven genuine defects are recorded as known findings with region predicates; everything outside the regions is exhausted.',
+      'Bounded model checking of the real signature diff/eq/clone code and of diff -> hint -> simulate closure: FieldSignature (a == b) iff both diffs empty with attribute values symbolic; Model/App/Project signatures over unique_together, index_together, Meta.indexes, Meta.constraints (incl. reordered lists) and db_table_comment; hinted evolution from Diff.evolution() simulated on clone(old) leaves no residual difference, for fields changed in place / added / deleted, models deleted and Meta changes. Five genuine defects are recorded as known findings with region predicates (three more, in the ChangeField handling of relation targets and type changes, were repaired); everything outside the regions is exhausted.',
       'Stub: diff.get_model (field default is a symbolic flag/value). db_table/db_tablespace/pk_column changes are outside the input space. Signature level only (hints are simulated, not lowered to SQL). db_column values come from a 3-entry pool. Trusted: CrossHair+z3.',
       'CrossHair symbolic execution (z3) of signature.py diff/__eq__/clone, diff.py Diff.evolution and mutations simulate(); known-finding regions excluded inside the harness',
       design_ref='5.4')
